@@ -118,6 +118,30 @@ func registerCore(e *Engine) {
 		}
 		return 0
 	})
+	// verifUFConstArg(name, call, arg) returns numerator and denominator of a
+	// constant argument of the call-th recorded application of an
+	// uninterpreted function (nil, nil when absent or not constant): lets a
+	// harness assert *which* arguments the code passes to an abstracted callee.
+	e.Register("verif:verifUFConstArg", func(fr *frame, args []value) value {
+		name := strArg(args[0])
+		call, arg := int(asInt64(args[1])), int(asInt64(args[2]))
+		k := 0
+		for _, u := range fr.i.ctx.ufApps {
+			if u.Name != name {
+				continue
+			}
+			if k == call && arg < len(u.Args) {
+				if r, ok := realIsConst(u.Args[arg]); ok {
+					return tuple{bigCell(IntConst(r.Num())), bigCell(IntConst(r.Denom()))}
+				}
+				if u.Args[arg].IsConst() && u.Args[arg].S.K == SInt {
+					return tuple{bigCell(u.Args[arg]), bigCell(IntConst64(1))}
+				}
+			}
+			k++
+		}
+		return tuple{(*value)(nil), (*value)(nil)}
+	})
 	// verifSymbolic reports whether the harness runs under the engine.
 	e.Register("verif:verifSymbolic", func(fr *frame, args []value) value { return true })
 	// verifIsConcrete... debugging aid
